@@ -746,7 +746,11 @@ def cli_index(chk, repo):
                 enc_extra.append((list(a[1:]), dict(kw)))
             return Obj("Text", OrderedDict(of=g.fields.get("of") if isinstance(g, Obj) else Const(None)))
         sc.vars["open_image"] = Fn("py", impl=open_image, name="open_image")
-        sc.vars["caching"] = Obj("caching", OrderedDict(encode=Fn("py", impl=encode, name="encode")))
+        # the caching package as it is (location helpers, ...), with encode replaced by the recording stub
+        cmod = repo.module("ceos_alos2.sar_image.caching")
+        I.module_scope(cmod).vars["encode"] = Fn("py", impl=encode, name="encode")
+        from ..shapes import ModuleRef
+        sc.vars["caching"] = ModuleRef(mod=cmod)
         sc.vars["fsspec"] = Obj("fsspec", OrderedDict(get_mapper=Fn("py", impl=lambda I_, a, kw: Obj("Mapper", OrderedDict(root=a[0] if a else Const("?"))), name="get_mapper")))
         arg = W.path(prod + ((target,) if target else ()))
         try:
